@@ -146,6 +146,7 @@ WS_OPS: Dict[str, dict] = {
     "send_nonstr": {"type": "websocket.send", "text": b"hi"},
     "close": {"type": "websocket.close", "code": 1000},
     "hstart": {"type": "websocket.http.response.start", "status": 401, "headers": [(b"x-a", b"1")]},
+    "hstart204": {"type": "websocket.http.response.start", "status": 204, "headers": []},  # a body-less denial
     "hstart_pseudo": {"type": "websocket.http.response.start", "status": 401, "headers": [(b":status", b"200")]},
     "hstart_v_crlf": {"type": "websocket.http.response.start", "status": 401,
                       "headers": [(b"x-a", b"1\r\nx-evil: 2")]},
